@@ -31,7 +31,7 @@ def sh(cmd, cwd=None, env=None, timeout=900):
 
 
 def evaluate(seed: str, props: list[str], skip_suite: bool = False, refactor: bool = False) -> dict:
-    seed_p = pathlib.Path(seed)
+    seed_p = pathlib.Path(seed).resolve()
     res: dict = {"seed": str(seed_p), "ok": False}
     tmp = tempfile.mkdtemp(prefix="seval_")
     wt = os.path.join(tmp, "wt")
